@@ -215,43 +215,20 @@ theorem batch_crc_covers (comp : Int → Bytes → Bytes) (b : Batch) :
 theorem message_crc_covers (comp : Int → Bytes → Bytes) (m : Msg) :
     encMessage comp m = be 4 (crc32 .ieee (m.crcBody comp)) ++ m.crcBody comp := rfl
 
-/-- `recordbatch_roundtrip`: all codecs as a parameter with the law `decomp ∘ comp = id` on this payload.
-    `hcount` is the guard of `getArrayLength` on the record count: automatically true without compression
-    (`recordbatch_roundtrip_uncompressed`), a real restriction with it (`recordbatch_count_guard`). -/
+/-- `recordbatch_roundtrip`: all codecs as a parameter with the law `decomp ∘ comp = id` on this payload; no
+    condition on how well the records compress (the record count is compared with the decompressed records) -/
 theorem recordbatch_roundtrip (comp : Int → Bytes → Bytes) (decomp : Int → Bytes → Option Bytes) (b : Batch)
     (rest : Bytes) (hlaw : decomp b.codec (comp b.codec (encRecords b.records)) = some (encRecords b.records))
-    (hwt : b.WTP comp) (hcount : b.records.length ≤ (comp b.codec (encRecords b.records)).length + rest.length) :
-    decBatch decomp (encBatch comp b ++ rest) = some (b, rest) := batch_dec_enc comp decomp b rest hlaw hwt hcount
+    (hwt : b.WTP comp) :
+    decBatch decomp (encBatch comp b ++ rest) = some (b, rest) := batch_dec_enc comp decomp b rest hlaw hwt
 
-private theorem records_length_le (rs : List Record) : rs.length ≤ (encRecords rs).length := by
-  induction rs with
-  | nil => simp [encRecords]
-  | cons r rs ih =>
-    have e : encRecords (r :: rs) = encRecord r ++ encRecords rs := by simp [encRecords]
-    have h1 : 1 ≤ (encRecord r).length := by
-      have := putUVarint_length_pos (zigzag ((size recordBodyFmt 0 r.toVal : Nat) : Int))
-      simp only [encRecord, recordFmt, enc, putVarLen, List.length_append, putVarint]
-      omega
-    rw [e, List.length_append, List.length_cons]; omega
-
-/-- with the code's own compress/decompress switch and any library pair satisfying the law; codec 0 needs no
-    library and no count hypothesis -/
+/-- with the code's own compress/decompress switch: codec 0 needs no library -/
 theorem recordbatch_roundtrip_uncompressed (clib : Int → Bytes → Bytes) (dlib : Int → Bytes → Option Bytes)
     (b : Batch) (rest : Bytes) (hc : b.codec = 0) (hwt : b.WTP (compress clib)) :
     decBatch (decompress dlib) (encBatch (compress clib) b ++ rest) = some (b, rest) := by
   apply recordbatch_roundtrip (compress clib) (decompress dlib) b rest
   · exact decompress_compress clib dlib b.codec _ (by omega) (fun h => absurd hc h)
   · exact hwt
-  · have := records_length_le b.records
-    simp only [compress, hc, ↓reduceIte]; omega
-
-/-- partial theorem for the pinned code: the count guard compares the number of records with the number of
-    *compressed* bytes that follow, so a batch that compresses below one byte per record and ends the input is
-    rejected although it is perfectly well-formed -/
-theorem recordbatch_count_guard (comp : Int → Bytes → Bytes) (decomp : Int → Bytes → Option Bytes) (b : Batch)
-    (rest : Bytes) (hwt : b.WTP comp)
-    (hbig : b.records.length > (comp b.codec (encRecords b.records)).length + rest.length) :
-    decBatch decomp (encBatch comp b ++ rest) = none := batch_count_guard comp decomp b rest hwt hbig
 
 def exampleBatch : Batch :=
   { firstOffset := 100, partitionLeaderEpoch := -1, magic := 2, codec := 0, control := false, logAppendTime := true,
@@ -268,14 +245,14 @@ example (clib : Int → Bytes → Bytes) (dlib : Int → Bytes → Option Bytes)
     decBatch (decompress dlib) (encBatch (compress clib) exampleBatch ++ [1, 2]) = some (exampleBatch, [1, 2]) :=
   recordbatch_roundtrip_uncompressed clib dlib exampleBatch [1, 2] rfl (exampleBatch_wt clib)
 
-/-- a (degenerate but lawful on this payload) library that compresses the one record to nothing: the batch is
-    rejected – the hypothesis of `recordbatch_count_guard` is satisfiable -/
+/-- a (degenerate but lawful on this payload) library that compresses the one record to nothing: the batch still
+    round-trips, whatever follows it -/
 example : decBatch (fun _ _ => some (encRecords [exampleRecord]))
-    (encBatch (fun _ _ => []) { exampleBatch with codec := 4 }) = none := by
-  have := recordbatch_count_guard (fun _ _ => []) (fun _ _ => some (encRecords [exampleRecord]))
-    { exampleBatch with codec := 4 } []
+    (encBatch (fun _ _ => []) { exampleBatch with codec := 4 }) = some ({ exampleBatch with codec := 4 }, []) := by
+  have := recordbatch_roundtrip (fun _ _ => []) (fun _ _ => some (encRecords [exampleRecord]))
+    { exampleBatch with codec := 4 } [] rfl
     ⟨by decide, by decide, by decide, by decide, by decide, by decide, by decide, by decide, by decide,
-      by decide, by decide, rfl, by decide, by decide⟩ (by decide)
+      by decide, by decide, rfl, by decide, by decide⟩
   simpa using this
 
 /-- legacy message (magic 0/1): CRC, magic, attributes, timestamp from magic 1 on, key, value;
